@@ -228,6 +228,15 @@ def one_field_edit(req, rng, info):
     """The same request with ONE field changed (same kernel / calculator object): caches keyed on part of the
     arguments show up as a stale value in the second evaluation."""
     import copy
+    if req["op"] == "call_Fq":
+        # the same amplitude request with another effective-radius mode (0 = none) on the same kernel
+        r2 = copy.deepcopy(req)
+        modes = getattr(info, "radius_effective_modes", None) or []
+        cur = int(r2["pars"].get("radius_effective_mode", 0))
+        choices = [m for m in range(0, len(modes) + 1) if m != cur] or [1 - cur]
+        r2["pars"]["radius_effective_mode"] = rng.choice(choices)
+        r2["edit"] = "mode"
+        return r2
     if req["op"] not in ("call_kernel", "direct"):
         return None
     r2 = copy.deepcopy(req)
@@ -365,7 +374,7 @@ def gen_history(rng, infos, length):
         else:
             reqs.append(dict(op="call_kernel", model=model, q=q, cutoff=cutoff, pars=gen_pars(info, rng, dim)))
         # the request just made, again with one field changed (same kernel or calculator object), once or twice
-        if reqs and reqs[-1]["op"] in ("call_kernel", "direct") and rng.random() < 0.6:
+        if reqs and reqs[-1]["op"] in ("call_kernel", "direct", "call_Fq") and rng.random() < 0.6:
             for _ in range(rng.choice([1, 2, 3])):
                 e = one_field_edit(reqs[-1], rng, infos[reqs[-1]["model"]])
                 if e is not None:
@@ -419,6 +428,10 @@ def main(run):
         h = [dict(op="sasview", model=mname, q=qq, cutoff=1e-5, settings=st) for qq in order]
         h.insert(2, dict(op="sasview_clone", model=mname, q=order[1], cutoff=1e-5, settings=st))
         histories.insert(1, h)
+    # corpus: amplitude requests on one kernel with the effective-radius mode going 2 -> 0 -> 1 -> 0
+    histories.insert(1, [dict(op="call_Fq", model="core_shell_sphere", q=[[0.01, 0.05, 0.2]], cutoff=0.0,
+                              pars={"radius": 40.0, "thickness": 12.0, "radius_pd": 0.1, "radius_pd_n": 5, "radius_effective_mode": m_})
+                         for m_ in (2, 0, 1, 0)])
     # fresh-process oracle, memoised per distinct request
     oracle = {}
     todo = []
